@@ -135,6 +135,17 @@ func (g *c07Gen) walk(src *mgen.Type, vecN int, vecSc bool, constOnly bool, maxL
 			if vs {
 				vt = fmt.Sprintf("<vscale x %d x %s>", vn, it)
 			}
+			aliased := ""
+			if rng.Intn(4) == 0 {
+				// the index type written through a type alias (defined in the module prelude)
+				vt = c07AliasName(vn, it, vs)
+				aliased = "+type-alias"
+			}
+			defer func(k int) {
+				if aliased != "" && k < len(forms) {
+					forms[k] += aliased
+				}
+			}(len(forms))
 			switch {
 			case form == 7:
 				idx = append(idx, vt+" zeroinitializer")
@@ -185,6 +196,13 @@ func (g *c07Gen) walk(src *mgen.Type, vecN int, vecSc bool, constOnly bool, maxL
 	return idx, cur, n, sc, forms
 }
 
+func c07AliasName(n int, it string, scalable bool) string {
+	if scalable {
+		return fmt.Sprintf("%%SV%d%s", n, it)
+	}
+	return fmt.Sprintf("%%FV%d%s", n, it)
+}
+
 func c07Expected(elem *mgen.Type, as, n int, sc bool) string {
 	p := mgen.Ptr(elem, as)
 	if n > 0 {
@@ -214,6 +232,11 @@ func c07Batch(r *fw.Rec, idx int) {
 	srcs := g.srcTypes()
 	var sb strings.Builder
 	fmt.Fprintf(&sb, "%%S = type %s\n@anchor = global i32 0\n", named.Body)
+	for _, vn := range []int{2, 4} {
+		for _, it := range []string{"i64", "i32", "i8"} {
+			fmt.Fprintf(&sb, "%s = type <%d x %s>\n%s = type <vscale x %d x %s>\n", c07AliasName(vn, it, false), vn, it, c07AliasName(vn, it, true), vn, it)
+		}
+	}
 	var geps []c07Gep
 	perBatch := 40
 	for k := 0; k < perBatch; k++ {
